@@ -166,6 +166,7 @@ type Env struct {
 	oldMode  bool
 	callerSide bool
 	loopPre  *State   // state at the entry of the innermost loop (for atentry(...))
+	trigs     *[]string // patterns collected for the innermost enclosing quantifier (trig(...))
 	ghostBody bool    // executing the body of a ghost function or a callee inlined from a specification
 	qvars    []string // "(name sort)" of enclosing quantifier variables
 	qnames   []string
